@@ -105,6 +105,7 @@ static bool run_case(const Sub& sub, const Vals& v, Ctx& ctx) {
   std::string cj = case_json(sub, v, "crash (fatal signal or sanitizer report) or no completion within 600 s while executing this case", "");
   strncpy(g_cur_json, cj.c_str(), sizeof g_cur_json - 1);
   g_in_case = 1;
+  g_case_hash = case_hash(sub, v);
   alarm(600);  // watchdog: a single case takes milliseconds to a few seconds; a library call that never returns is reported like a crash
   sub.run(v, ctx);
   alarm(0);
